@@ -218,14 +218,20 @@ impl ObjectTransmissionInformation {
         let kl = |n: u32| -> u32 {
             for &(kprime, _, _, _, _) in SYSTEMATIC_INDICES_AND_PARAMETERS.iter().rev() {
                 let x = int_div_ceil(symbol_size as u64, alignment as u64 * n as u64);
-                if kprime <= (decoder_memory_requirement / (alignment as u64 * x as u64)) as u32 {
+                if kprime as u64 <= decoder_memory_requirement / (alignment as u64 * x as u64) {
                     return kprime;
                 }
             }
-            unreachable!();
+            // No K' fits into the memory requirement with this number of sub-blocks
+            0
         };
 
-        let num_source_blocks = int_div_ceil(kt as u64, kl(n_max) as u64);
+        let kl_n_max = kl(n_max);
+        assert!(
+            kl_n_max > 0,
+            "decoder_memory_requirement is too small for any source block"
+        );
+        let num_source_blocks = int_div_ceil(kt as u64, kl_n_max as u64);
 
         let mut n = 1;
         for i in 1..=n_max {
